@@ -159,6 +159,31 @@ def coding(r, n, exotic):
     return randcase(r, body)
 
 
+NONASCII = ["\u00e9", "\u00c9", "\u65e5", "\u03a9", "\U0001d538", "\u0131"]   # 2, 2, 3, 2, 4, 2 bytes in UTF-8
+
+
+def long_nonascii(r, n):
+    """n letters of coding sequence (ACGT, random case) with a handful of non-ASCII letters: one early, the others just
+    before / across BYTE offsets that are multiples of 4096, 16384, 49152, 65536 (block sizes an implementation might
+    process the text in), and a few at random positions"""
+    b = list(coding(r, n, False))
+    def put(i, ch):
+        if 0 <= i < len(b) and b[i] in "ACGTacgt":
+            b[i] = ch
+            return len(ch.encode()) - 1
+        return 0
+    extra = put(r.randrange(0, 1000), r.choice(NONASCII))
+    marks = sorted(set([4096 * r.randint(1, 20), 16384 * r.randint(1, 5), 16384, 49152, 65536, 98304]))
+    for B in marks:
+        ch = r.choice(NONASCII)
+        i = B - extra - r.randint(1, len(ch.encode()))     # ends at, or straddles, byte offset B
+        if i < len(b) - 3 and r.random() < 0.8:
+            extra += put(i, ch)
+    for _ in range(r.randint(0, 3)):
+        put(r.randrange(len(b)), r.choice(NONASCII))      # (byte offsets of later marks are then only approximate)
+    return "".join(b)
+
+
 def conc_cases(r, n):
     """writers on different default ids (same-code neighbours 1/11, 27/28 on purpose), plus readers of further ids"""
     for i in range(n):
@@ -210,6 +235,11 @@ def cases(seed, tier):
         for n in lens:
             d = r.choice(ALL_IDS)
             yield ["hist", str(d), "g:%d" % d, "w:0:%s" % coding(r, n, r.random() < 0.5)]
+    # 50 000 .. 100 000 letters WITH non-ASCII letters (lengths in every residue mod 3), also re-weighted twice
+    for k in range(4 if tier == "quick" else 24):
+        d = r.choice(ALL_IDS)
+        n = r.choice([50000, 65537, 99998, 99999, 100000, r.randint(50000, 100000)])
+        yield ["hist", str(d), "g:%d" % d, "w:0:%s" % long_nonascii(r, n)] + (["w:1:%s" % long_nonascii(r, 60001), "o:2"] if k % 2 else [])
     # long sequences over a wide alphabet (many distinct non-codon triplets), two re-weightings in a row
     for _ in range(3 if tier == "quick" else 20):
         d = r.choice(ALL_IDS)
